@@ -296,6 +296,74 @@ func c15Frequency(c *caseCtx) {
 	c.sample(M{"method": method, "ordering": ordering, "seeds": N, "first_position_counts": counts, "request": g.M})
 }
 
+// the probability orderings over MANY criteria (13..24: library sorts change strategy above a dozen elements): majority
+// heuristic, weights 1, 2, .., n (importance = weight), half of the criteria omitted; over the seeds the three least
+// important criteria are omitted more often than the three most important ones (weakestByProbability; the opposite for
+// strongestByProbability)
+func c15FrequencyLarge(c *caseCtx) {
+	ordering := []string{"weakestByProbability", "strongestByProbability"}[c.idx%2]
+	n := 13 + (c.idx/2*5)%12
+	var crit []interface{}
+	w := M{}
+	cv := func(a int) M {
+		m := M{}
+		for j := 0; j < n; j++ {
+			m[fmt.Sprintf("c%d", j)] = float64((a*7 + j*3) % 5)
+		}
+		return m
+	}
+	g := &genReq{method: "majorityHeuristic"}
+	for j := 0; j < n; j++ {
+		id := fmt.Sprintf("c%d", j)
+		crit = append(crit, M{"id": id, "type": "gain"})
+		g.crits = append(g.crits, critSpec{id: id})
+		w[id] = float64(j + 1)
+	}
+	g.altIds, g.chose = []string{"a0", "a1", "a2"}, []string{"a0", "a1"}
+	g.M = M{"preferenceFunction": "majorityHeuristic", "knownAlternatives": []interface{}{M{"id": "a0", "criteria": cv(0)}, M{"id": "a1", "criteria": cv(1)}, M{"id": "a2", "criteria": cv(2)}},
+		"choseToMake": []interface{}{"a0", "a1"}, "criteria": crit, "methodParameters": M{"weights": w, "drawResolution": "allow"}}
+	const N = 1500
+	least, most := 0, 0
+	base := c.rng.Intn(1 << 20)
+	for s := 0; s < N; s++ {
+		g.M["biases"] = []interface{}{M{"name": "criteriaOmission", "props": M{"ordering": ordering, "ratio": 0.5, "randomSeed": base + s}}}
+		d := decide(g.body(), true)
+		c.count("evaluations", 1)
+		if !d.OK || len(d.Trace.Bias) != 1 {
+			c.violate("frequency-rejected", "frequency battery request rejected: "+d.Err, M{"request": g.M})
+			return
+		}
+		om, _ := reportedCriteriaChanges(d.Trace.Bias[0])
+		if len(om) != n/2 {
+			c.violate("omission-count", fmt.Sprintf("ratio 0.5 of %d criteria but %d omitted", n, len(om)), M{"request": g.M})
+			return
+		}
+		for _, id := range om {
+			var j int
+			fmt.Sscanf(id, "c%d", &j)
+			if j < 3 {
+				least++
+			}
+			if j >= n-3 {
+				most++
+			}
+		}
+	}
+	c.count("large_frequency_batteries", 1)
+	c.count("nontrivial", 1)
+	c.distinct(fmt.Sprintf("freqLarge|%d|%s", n, ordering))
+	ok := moreOften(least, most)
+	if ordering == "strongestByProbability" {
+		ok = moreOften(most, least)
+	}
+	if !ok {
+		c.violate("probability-ordering", fmt.Sprintf("%s over %d seeds with %d criteria (weights 1..%d, half omitted): the three least important criteria were omitted %d times, the three most important %d times",
+			ordering, N, n, n, least, most), M{"criteria": n, "ordering": ordering, "least_important_omitted": least, "most_important_omitted": most})
+		return
+	}
+	c.sample(M{"criteria": n, "ordering": ordering, "seeds": N, "least_important_omitted": least, "most_important_omitted": most})
+}
+
 // ---------------------------------------------------------------------------------------------
 // C16: reversing the same criteria twice restores the data
 
